@@ -48,6 +48,9 @@ type Case struct {
 	Probe bool `json:"probe,omitempty"`
 	// HoldAtEnd: handlers that are gated stay blocked until after the probes (C04: a never-releasing handler)
 	HoldAtEnd bool `json:"hold_at_end,omitempty"`
+	// ProbeKinds: after the RPC probes, one call of each of these types on all servers must be
+	// answered by every one of them (threshold = all).
+	ProbeKinds []string `json:"probe_kinds,omitempty"`
 	// ProbeSleepUs is the latency of the probes' handlers (0 = they answer at once).
 	ProbeSleepUs int `json:"probe_sleep_us,omitempty"`
 	// Down lists servers that are never started.
@@ -114,9 +117,12 @@ type CallInfo struct {
 type Probe struct {
 	Mgr    int
 	Server int
-	OK     bool
-	Hung   string
-	Err    string
+	// Kind is "" for the RPC probe of one server, else the call type of a probe that must be
+	// answered by every server (Server is -1)
+	Kind string
+	OK   bool
+	Hung string
+	Err  string
 	// Attempts made (a probe is retried while it fails with an unavailable-type error)
 	Attempts int
 }
@@ -586,6 +592,44 @@ func Run(c Case, h Hooks) Result {
 					}
 					// unavailable-type errors: gorums' own "stream is down", grpc transport errors, io.EOF
 					// from a send on a stream that is just being torn down
+					if pr.OK || pr.Hung != "" || !(strings.Contains(pr.Err, "Unavailable") || strings.Contains(pr.Err, "EOF") || strings.Contains(pr.Err, "code = Canceled")) {
+						break
+					}
+					time.Sleep(5 * time.Millisecond)
+				}
+				res.Probes = append(res.Probes, pr)
+			}
+			allOK := true
+			for _, pr := range res.Probes {
+				if pr.Mgr == mi && !pr.OK {
+					allOK = false
+				}
+			}
+			for ki, kind := range c.ProbeKinds {
+				if !allOK || len(c.Down) > 0 {
+					break
+				}
+				pr := Probe{Mgr: mi, Server: -1, Kind: kind}
+				for attempt := 0; attempt < 6; attempt++ {
+					tok := scen.NewTokens(1)
+					p := client.NewCall(11000+mi*10+ki, tok, uint64(110000+ki), scen.CallSpec{Kind: kind, Ctx: "cancel", Thread: 99, Script: scen.QScript{Kind: "threshold", Q: c.N}})
+					go p.Issue()
+					r, sig := scen.Await(p.DoneCh(), scen.B)
+					pr.Attempts = attempt + 1
+					pr.Err, pr.Hung, pr.OK = "", "", false
+					switch {
+					case r == scen.Hung:
+						pr.Hung = sig
+						p.Cancel()
+					case r == scen.Late:
+						res.Late = true
+						pr.OK = true
+					case p.Err != nil:
+						pr.Err = p.Err.Error()
+					default:
+						pr.OK = true
+					}
+					p.Cancel()
 					if pr.OK || pr.Hung != "" || !(strings.Contains(pr.Err, "Unavailable") || strings.Contains(pr.Err, "EOF") || strings.Contains(pr.Err, "code = Canceled")) {
 						break
 					}
